@@ -51,7 +51,7 @@ func genC07(t *rapid.T, maxTunnels int) c07Case {
 	for i := 0; i < n; i++ {
 		tn := c07Tunnel{Kind: genKind(t), User: strconv.Itoa(rapid.IntRange(1, 9).Draw(t, "user")),
 			IDStyle: rapid.SampledFrom([]string{"guid", "guid", "free", "none"}).Draw(t, "idStyle"),
-			Setup:   rapid.SampledFrom([]string{"ok", "ok", "ok", "ok", "other-users-host", "bad-cookie"}).Draw(t, "setup"),
+			Setup:   rapid.SampledFrom([]string{"ok", "ok", "ok", "ok", "other-users-host", "bad-cookie", "unreachable-host"}).Draw(t, "setup"),
 			End:     rapid.SampledFrom([]string{"close", "drop", "ooo"}).Draw(t, "end"), StartMs: rapid.IntRange(0, 3).Draw(t, "start")}
 		if tn.Kind == "legacy" && tn.IDStyle == "none" {
 			tn.IDStyle = "free" // a legacy pair needs an identifier
@@ -144,6 +144,12 @@ func runC07Tunnel(i int, tn c07Tunnel, c c07Case, o gwOpts, mkTarget func(user s
 		other := (atoi(tn.User) % 9) + 1
 		reqHost = "127.0.0." + strconv.Itoa(other)
 	}
+	reqPort := P
+	if tn.Setup == "unreachable-host" {
+		// allowed by the policy, but the connection is refused: the tunnel gets an error, the others must not notice
+		reqPort = P + 3
+		tokenHost = net.JoinHostPort(ownHost, strconv.Itoa(reqPort))
+	}
 	units := [][]byte{tsgu.Handshake(1, byte(i), 0, o.serverCaps())}
 	if o.TokenAuth {
 		at := w.IdP.NewAccessToken("ok:" + tn.User)
@@ -159,7 +165,7 @@ func runC07Tunnel(i int, tn c07Tunnel, c c07Case, o gwOpts, mkTarget func(user s
 	} else {
 		units = append(units, tsgu.TunnelCreate("", false))
 	}
-	units = append(units, tsgu.TunnelAuth("pc"), tsgu.ChannelCreate(reqHost, uint16(P)))
+	units = append(units, tsgu.TunnelAuth("pc"), tsgu.ChannelCreate(reqHost, uint16(reqPort)))
 	for _, u := range units {
 		conn.Send(u)
 	}
@@ -319,7 +325,8 @@ func around(b []byte, at int) string {
 func atoi(s string) int { n, _ := strconv.Atoi(s); return n }
 
 func c07Opts(c c07Case, P int) gwOpts {
-	o := gwOpts{TokenAuth: c.TokenAuth, HostSelection: "roundrobin", Hosts: []string{"127.0.0." + placeholder + ":" + strconv.Itoa(P)}, VerifyIP: true}
+	// the second entry is a port of the user's own address on which nothing listens (no grid uses P+3)
+	o := gwOpts{TokenAuth: c.TokenAuth, HostSelection: "roundrobin", Hosts: []string{"127.0.0." + placeholder + ":" + strconv.Itoa(P), "127.0.0." + placeholder + ":" + strconv.Itoa(P+3)}, VerifyIP: true}
 	if c.Buffers {
 		o.SendBuf, o.ReceiveBuf = 262144, 262144
 	}
